@@ -306,6 +306,21 @@ def run_case(case, seed):
                     r.true(key + ':rescaled-knots:value', abs(v1_ - v0_) <= 1e-9 * max(1.0, abs(v0_)), 'knots x %g: value %r vs %r' % (s_, v1_, v0_))
                     d0_, d1_ = float(f.partial(p_, idx)), float(g_.partial(ps_, idx)) * s_
                     r.true(key + ':rescaled-knots:partial', abs(d1_ - d0_) <= 1e-7 * max(1.0, abs(d0_)), 'knots x %g: s * partial %r vs %r' % (s_, d1_, d0_))
+    # the public parameter attributes are reassigned after construction (a parameter sweep re-using one object): every method
+    # follows the new values
+    if fam in ('Sin', 'Cos', 'Gauss', 'PeriodicGauss'):
+        newpar = {'alpha': par['alpha'] * 1.7} if fam in ('Sin', 'Cos') else {'mean': par['mean'] + 0.3, 'variance': par['variance'] * 1.5}
+        with r.op(key + ':reassigned-parameters:call'):
+            fa_ = make(dict(case, given=True))
+            for k_, v_ in newpar.items():
+                setattr(fa_, k_, v_)
+            fb_ = make(dict(case, given=True, par=dict(par, **newpar)))
+            r.true(key + ':reassigned-parameters:value', float(fa_(p0)) == float(fb_(p0)), 'value after the parameters were reassigned')
+            r.true(key + ':reassigned-parameters:partial', float(fa_.partial(p0, idx)) == float(fb_.partial(p0, idx)), 'partial after the parameters were reassigned')
+            if not no_d2:
+                r.true(key + ':reassigned-parameters:partial2', float(fa_.partial2(p0, idx, idx)) == float(fb_.partial2(p0, idx, idx)),
+                       'partial2 after the parameters were reassigned: %r vs %r' % (fa_.partial2(p0, idx, idx), fb_.partial2(p0, idx, idx)))
+                r.true(key + ':reassigned-parameters:hessian', np.array_equal(np.asarray(fa_.hessian(p0), dtype=float), np.asarray(fb_.hessian(p0), dtype=float)))
     # the same function built with NumPy-scalar parameters
     if not no_d1 and fam != 'Bspline':
         with r.op(key + ':numpy-scalar-parameters:call'):
